@@ -310,11 +310,63 @@ def path_dependencies_are_normalised(F, res, rule="T8"):
            how="recursive calls for a manifest `path`: %d; not through a normalising function (%s): %s" % (sites, sorted(FL.short(n) for n in norm), bad))
 
 
+def every_project_is_assembled_with_names_of_its_own(F, res, rule="T9"):
+    """T9: assemble_graph recognises a package it has met before by its *name* (the `seen` table). Names are unique inside one
+    project only: two projects opened in one session can both depend on a package called `shared`, each with its own copy
+    under its own build/packages. Every top-level assembly (a call of assemble_graph that is not the recursive one) therefore
+    starts with a name table of its own - built in the same loop iteration as the call, or in the same straight-line code
+    when there is no loop. A table that survives from one root to the next resolves the second project's import into the
+    first project's dependency."""
+    ag = "glas::server::Server::assemble_graph"
+    n, bad = 0, []
+    for p_, f in sorted(F.fns.items()):
+        if not p_.startswith(("glas::", "<glas::")) or not f.blocks or p_.startswith(ag):
+            continue
+        d = None
+        for b, t in f.calls():
+            if (callee(t) or "") != ag:
+                continue
+            d = d or FL.Defs(f)
+            n += 1
+            # the `seen` argument: the one whose type is a map keyed by the package name
+            arg = None
+            agf = F.fn(ag)
+            for i in range(agf.d["arg_count"]):
+                if "HashMap<" in str(agf.local_ty(i + 1) or "") and i < len(t["args"]):
+                    arg = t["args"][i]
+            if arg is None:
+                bad.append("%s line %d: no name table argument found" % (FL.short(p_), t["ln"]))
+                continue
+            o = d.origin_op(arg)
+            base = o
+            while base.get("k") == "field":
+                base = base["base"]
+            ctor_bb = None
+            if base.get("k") == "call" and FL.short(callee(base["t"]) or callee_def(base["t"]) or "").rsplit("::", 1)[-1] in ("new", "default", "with_capacity"):
+                ctor_bb = base["bb"]
+            elif base.get("k") == "multi" or base.get("k") == "unknown":
+                l0 = base.get("l")
+                cds = [dd for dd in d.defs.get(l0, []) if dd[2] == "call" and
+                       FL.short(callee(dd[3]) or callee_def(dd[3]) or "").rsplit("::", 1)[-1] in ("new", "default", "with_capacity")]
+                if len(cds) == 1:
+                    ctor_bb = cds[0][0]
+            if ctor_bb is None:
+                bad.append("%s line %d: the name table is not built by a constructor in this function" % (FL.short(p_), t["ln"]))
+                continue
+            loops = [f.natural_loop(tl, hd) for tl, hd in f.back_edges()]
+            around_call = [lp for lp in loops if b in lp]
+            if any(ctor_bb not in lp for lp in around_call):
+                bad.append("%s line %d: the table is built outside the loop that assembles one root per iteration" % (FL.short(p_), t["ln"]))
+    res.ob(rule, "assemble_graph/fresh-name-table-per-root", "every top-level assembly of a package graph starts with an empty table of package names",
+           n >= 1 and not bad, where=F.fn(ag).loc(), how="top-level calls: %d; %s" % (n, "; ".join(bad) if bad else "each with a table built in the same iteration"))
+
+
 def run(F, res, tier):
     direct_dependencies_only(F, res)
     lookups_go_through_visible_modules(F, res)
     roots_are_registered_consistently(F, res)
     path_dependencies_are_normalised(F, res)
+    every_project_is_assembled_with_names_of_its_own(F, res)
     from rules import c08 as _c08, c15 as _c15, c05 as _c05, c07 as _c07
     _c08.locality_comes_from_the_registered_path(F, res, rule="T4")      # V9 + V10 (longest root first)
     _c15.files_lie_below_their_root(F, res, rule="T4")                  # M10
